@@ -258,7 +258,8 @@ static bool doVecMat(Interp& I, const Step& s)
             if (real) { acc += x.num() * m.num(); mag += std::fabs(x.num() * m.num()); }
             else iacc += x.i * m.i;
         }
-        if (real) { T[size_t(j)] = Val::R(acc); T[size_t(j)].s = mag; if (std::fabs(acc) > 1e6) { I.skip("vm-range-limit"); return true; } }
+        // every partial sum is rounded to the terminal precision (1e-5) when its node is created
+        if (real) { T[size_t(j)] = Val::R(acc); T[size_t(j)].s = mag + double(n); if (std::fabs(acc) > 1e6) { I.skip("vm-range-limit"); return true; } }
         else { T[size_t(j)] = Val::I(iacc); if (std::labs(iacc) > (1L << 29)) { I.skip("vm-range-limit"); return true; } }
     }
     binary_operation* bop = nullptr;
